@@ -24,7 +24,7 @@ func init() {
 
 func ruleResumeGuard(c *Ctx) {
 	const R = "R06-guard"
-	c.floor(R, 6)
+	c.floor(R, 11)
 	p := c.P
 	trun := p.Fn("lua", "threadRun")
 	deadF := p.Field("lua", "LState", "Dead")
@@ -56,6 +56,42 @@ func ruleResumeGuard(c *Ctx) {
 			}
 			c.check(dead, R, fname(fn)+":not-dead", p.ipos(cl), "resume is reached only when th.Dead is false", "a dead coroutine can be resumed (threadRun is not guarded by the Dead test on that thread)")
 			c.check(running, R, fname(fn)+":not-running", p.ipos(cl), "resume is reached only when th is not the running thread", "the running coroutine can be resumed (threadRun is not guarded by the CurrentThread test)")
+			// …and only when it is not 'normal' (waiting for a coroutine it resumed): the guard compares the
+			// result of Status(th) with "normal" (F46: unguarded, two coroutines resumed each other until the
+			// Go stack overflowed)
+			normal := false
+			statusFn := p.Fn("lua", "(*LState).Status")
+			for _, cd := range g.CondsAtInstr(cl) {
+				if b, ok := cd.V.(*ssa.BinOp); ok && ((b.Op == token.EQL && !cd.Sense) || (b.Op == token.NEQ && cd.Sense)) {
+					for _, pair := range [][2]ssa.Value{{b.X, b.Y}, {b.Y, b.X}} {
+						sc, isCall := pair[0].(*ssa.Call)
+						str, isStr := constStr(pair[1])
+						if isCall && isStr && str == "normal" && sc.Call.StaticCallee() == statusFn && vkey(sc.Call.Args[1]) == vkey(th) {
+							normal = true
+						}
+					}
+				}
+			}
+			// …and only below a nesting bound: every nested resume runs on the Go stack of its resumer, which
+			// the call-stack limit does not cover (F47)
+			bounded := false
+			if lim, ok := p.intConst("lua", "maxResumeDepth"); ok {
+				for _, cd := range g.CondsAtInstr(cl) {
+					if b, ok := cd.V.(*ssa.BinOp); ok {
+						op := b.Op
+						if !cd.Sense {
+							op = negate(op)
+						}
+						if k, ok := constInt(b.Y); ok && k == lim && (op == token.LSS || op == token.LEQ) {
+							if _, isPhi := stripConv(b.X).(*ssa.Phi); isPhi {
+								bounded = true
+							}
+						}
+					}
+				}
+			}
+			c.check(bounded, R, fname(fn)+":nesting-bounded", p.ipos(cl), "resume is reached only below maxResumeDepth nested resumes", "the nesting of resumes is not bounded: a function that creates and resumes a coroutine running itself recurses on the Go stack until the runtime kills the process (the call-stack limit is per coroutine)")
+			c.check(normal, R, fname(fn)+":not-normal", p.ipos(cl), "resume is reached only when th is not waiting for a coroutine it resumed", "a 'normal' coroutine (one that resumed the running coroutine, directly or not) can be resumed: A resumes B, B resumes A, … recurses on the Go stack until the process dies")
 			// resumer recorded before the switch
 			okP, okC := false, false
 			allInstrs(fn, func(in ssa.Instruction) {
@@ -71,6 +107,18 @@ func ruleResumeGuard(c *Ctx) {
 	}
 	if n < 2 {
 		c.und(R, "threadRun-callers", "-", fmt.Sprintf("expected 2 resume sites, found %d", n))
+	}
+	// Status: 'normal' is decided by walking the resumer chain of the running thread, not by looking at the
+	// direct resumer only
+	if st := c.need(R, "lua", "(*LState).Status"); st != nil {
+		sg := p.G(st)
+		walks := false
+		for _, li := range sg.loops() {
+			if li.Class == "chain" {
+				walks = true
+			}
+		}
+		c.check(walks, R, "Status:normal-walks-resumer-chain", p.pos(st.Pos()), "the resumer chain (Parent links) is followed to the end", "Status looks only at the direct resumer: with A resuming B resuming C, status(A) seen from C is 'suspended' instead of 'normal' (and such a thread passes the resume guard)")
 	}
 }
 
@@ -333,7 +381,7 @@ func ruleKillArg(c *Ctx) {
 // the stack height read before the switch.
 func ruleResumeApi(c *Ctx) {
 	const R = "R06-resumeapi"
-	c.floor(R, 1)
+	c.floor(R, 3)
 	p := c.P
 	fn := c.need(R, "lua", "(*LState).Resume")
 	if fn == nil {
@@ -364,6 +412,34 @@ func ruleResumeApi(c *Ctx) {
 	pos := p.ipos(runs[0])
 	if witness != nil {
 		pos = p.ipos(witness)
+	}
+	// F44: the values of a resume are the results of the pending yield; both resume paths pad them with nil
+	// up to the count the yielding call expects (registers above the stack top hold Go nil, not LNil)
+	pad := p.Fn("lua", "(*LState).padResumeValues")
+	for _, name := range []string{"(*LState).Resume", "coResume"} {
+		rf := p.Fn("lua", name)
+		if rf == nil || pad == nil {
+			c.und(R, name+":pads-resume-values", "-", "Resume/coResume/padResumeValues not found")
+			continue
+		}
+		rg := p.G(rf)
+		okPad := false
+		var site ssa.Instruction
+		for _, pc := range callsTo(rf, pad) {
+			site = pc
+			for _, tr := range callsTo(rf, run) {
+				b, i := after(pc)
+				if rg.walk(b, i, nil, func(in ssa.Instruction) bool { return in == ssa.Instruction(tr) }) {
+					okPad = true
+				}
+			}
+		}
+		ppos := p.pos(rf.Pos())
+		if site != nil {
+			ppos = p.ipos(site)
+		}
+		c.Sites++
+		c.check(okPad, R, name+":pads-resume-values", ppos, "the resume values are padded to the expected result count before the thread runs", name+" hands the resume values to a suspended coroutine without padding them to the number of results the pending yield expects: 'local a, b = coroutine.yield()' resumed with one value leaves b a Go nil (nil-pointer panic on first use)")
 	}
 	c.check(okc, R, "Resume:restores-resumer-stack", pos, "every return after the switch passes SetTop(top)", "LState.Resume can return without dropping the values the coroutine handed over (SetTop(top) is skipped on a path): after a failed resume the resumer's stack keeps (false, error) — GetTop() and positive indices of the calling host function are off by two, repeated failures overflow the registry")
 }
